@@ -532,6 +532,31 @@ func (r *reflCtx) checkInvariants(rule string) {
 					}
 				}
 				c.Check(!bad, rule, cons, how, "a "+iv.typ+" whose "+iv.field+" is not a "+iv.kind+" type can be returned without error: later unguarded "+iv.field+".Elem()/NumField() calls panic", st, nil)
+				// the value under construction must not escape (be handed to a call
+				// or converted to an interface) before its Type was validated
+				if al, ok := fa.X.(*ssa.Alloc); ok {
+					for _, rr := range an.Referrers(al) {
+						var esc ssa.Instruction
+						switch x := rr.(type) {
+						case *ssa.MakeInterface:
+							esc = x
+						case ssa.CallInstruction:
+							for _, a := range x.Common().Args {
+								if a == ssa.Value(al) {
+									esc = x
+								}
+							}
+						}
+						if esc == nil {
+							continue
+						}
+						if hit, _ := an.PathTo(fn, st, an.IsInstr(esc), nil); hit == nil {
+							continue
+						}
+						ok, _ := r.typeHasKind(fn, esc, st.Val, []string{iv.kind})
+						c.Check(ok, rule, fmt.Sprintf("inv: the %s under construction in %s is published only after its %s was validated", iv.typ, an.ShortName(fn), iv.field), "escape dominated by the kind test", "the half-built "+iv.typ+" is handed out (e.g. registered as a graph node) before "+iv.field+" is known to be a "+iv.kind+" type: if validation then fails, code that trusts the invariant ("+iv.field+".Elem()) panics on it later", esc, nil)
+					}
+				}
 			})
 		}
 		c.Floor(rule, "construction sites of "+iv.typ+"."+iv.field, n, 1)
